@@ -49,7 +49,7 @@ def cases(draw, name, tier):
     if name == "chain_from_iterable":
         case["params"]["outer"]["fl"] = draw(st.sampled_from(["agen", "aclass", "iter", "seq"]))
     for spec in case["fns"].values():
-        spec["fl"] = draw(st.sampled_from(["def", "async", "partial", "obj", "objaw", "falsyobj", "gencoro", "unhashobj"]))
+        spec["fl"] = draw(st.sampled_from(["def", "async", "partial", "obj", "objaw", "falsyobj", "gencoro", "unhashobj", "classaw"]))
     if tier == "quick":
         case["exc"] = draw(st.lists(st.sampled_from(EXC_NAMES), min_size=2, max_size=2, unique=True))
     else:
